@@ -115,7 +115,7 @@ void mustache::SystemManager::reorderSystems() {
     std::set<std::string> unplaced_systems_names;
     {
         std::map<std::string, Data::SystemInfo*> map;
-        for (auto& info : data_->systems_info) {
+        for (auto& info : systems_cpy) {
             const auto name = info.system->name();
             unplaced_systems_names.insert(name);
             map[name] = &info;
